@@ -153,6 +153,22 @@ func genResp(r *Rng, tier string, p *Plan) {
 	if park {
 		p.Add(Op{K: "unpark", At: now + 500_000})
 	}
+	// A lookup that takes a while holds the environment cache's mutex for that
+	// long; a second lookup on the same node meanwhile waits on that mutex, which
+	// a bubble cannot see as idle (the run would never end). Client requests are
+	// spaced accordingly above; forwards between nodes cannot be, so plans with
+	// slow lookups run on one node.
+	for _, op := range p.Ops {
+		if op.K == "auth" && op.S == "slow" && nodes > 1 {
+			p.N["nodes"] = 1
+			for i := range p.Ops {
+				if p.Ops[i].K == "req" {
+					p.Ops[i].I = 0
+				}
+			}
+			break
+		}
+	}
 	p.N["api_slash"] = int64(PickOf(r, 0, 0, 0, 1))
 	p.N["env_ttl_us"] = PickOf(r, int64(1000), 0, 0)
 	if park {
